@@ -18,6 +18,7 @@ THEOREMS = [
     "c14_one_cancel_notification", "c14_cancel_before_send_writes_no_request", "c14_progress_exact",
     "c14_consumed_is_before_completion", "c14_progress_token_filter", "c14_callback_failure_irrelevant",
     "c14_shared_token", "c14_shared_token_starts", "c14_blocked_writer", "c14_stalled_writer", "c14_token_flag", "c14_token_callbacks", "c14_client_call_bounded",
+    "c14_deadline_slow_callbacks", "c14_slow_callbacks_nothing_invented",
 ]
 RULE = (
     "schedules: placements of {cancel, matching response, deadline} on the tick grid (1/1024 s) at poll boundaries +-1 tick, "
@@ -26,7 +27,9 @@ RULE = (
     "non-trivial = distinct case with a cancellation, a progress event or traffic; shared-token: 2-3 requests given ONE "
     "CancellationToken, sequentially (idle gaps 0..P) or concurrently on separate stream pairs, token firing never / before / "
     "at poll boundaries +-1 / mid-wait, vs Await.runSeq; client-deadlines: calls of the real MCPClient (lazy initialize) with servers that "
-    "never answer and floods of unrelated traffic every 100..512 ticks through the whole 60 s window, vs ClientApi.clientSeq; bound = initialize timeout + request timeout"
+    "never answer and floods of unrelated traffic every 100..512 ticks through the whole 60 s window, vs ClientApi.clientSeq; bound = initialize timeout + request timeout; "
+    "progress callbacks given as coroutine function / object with async __call__ / lambda / partial / bound method, and callbacks that take 1..3P ticks "
+    "(also past the deadline) vs AwaitSlow.runD"
 )
 TRUSTED = ["anyio fail_after / cancel scopes / memory streams and asyncio scheduling (sampled under the virtual-time loop)"]
 ASSUMPTIONS = ["one polling interval = the default sub_timeout (0.5 s = 512 ticks), regenerated into Gen/Timing.lean"]
@@ -160,8 +163,8 @@ class Schedules(Suite):
         return obs
 
     def model_line(self, case, o=None):
-        if o is None or o.get("harness_errors") or case.get("cbAction") or case.get("cbSleep"):
-            return None  # callbacks with effects / that take time: oracle only
+        if o is None or o.get("harness_errors") or case.get("cbAction"):
+            return None  # callbacks with effects: oracle only (callbacks that take time: Model/AwaitSlow)
         return H.model_line(case, o)
 
     def model_obs(self, out, case):
